@@ -22,7 +22,7 @@ impl C16 {
     }
 }
 
-const KINDS: [&str; 13] = ["Dual", "Dual2", "Cal", "UnionCal", "NamedCal", "CalType", "FXRates", "Curve", "PPSplineF64", "PPSplineDual", "PPSplineDual2", "Number", "CurveDF"];
+const KINDS: [&str; 14] = ["PickledValues", "Dual", "Dual2", "Cal", "UnionCal", "NamedCal", "CalType", "FXRates", "Curve", "PPSplineF64", "PPSplineDual", "PPSplineDual2", "Number", "CurveDF"];
 
 fn bits(a: f64, b: f64) -> bool {
     a.to_bits() == b.to_bits()
@@ -237,7 +237,21 @@ fn paths<T: Serialize + DeserializeOwned>(o: &T) -> Result<(T, T, String), Strin
 fn tagged(o: VerifObj) -> Result<(VerifObj, String), String> {
     let js = o.to_json().map_err(|e| format!("tagged to_json: {}", e))?;
     let back = VerifObj::from_json(&js).map_err(|e| format!("tagged from_json: {} (text: {})", e, crate::util::clip(&js, 300)))?;
-    Ok((back, js))
+    // the function Python calls; its result is the one compared with the original
+    let via_py = VerifObj::py_from_json(&js).map_err(|e| format!("Python-exposed from_json: {} (text: {})", e, crate::util::clip(&js, 300)))?;
+    if via_py.kind() != back.kind() {
+        return Err(format!("Python-exposed from_json gave a {} where the container gives a {}", via_py.kind(), back.kind()));
+    }
+    Ok((via_py, js))
+}
+
+/// Python's pickle: cls(*obj.__getnewargs__()) then __setstate__(obj.__getstate__()) (verif hooks)
+fn pickled<T>(res: Result<T, String>, same: impl FnOnce(&T) -> bool, d: &Value) -> Result<(), (String, Value)> {
+    match res {
+        Ok(p) if same(&p) => Ok(()),
+        Ok(_) => Err(("pickle|not-equal".to_string(), json!({"object": d}))),
+        Err(e) => Err(("pickle|error".to_string(), json!({"object": d, "error": e}))),
+    }
 }
 
 impl Prop for C16 {
@@ -259,7 +273,7 @@ impl Prop for C16 {
             v.push(format!("curve:order{}", o));
             v.push(format!("fx:order{}", o));
         }
-        for c in ["curve:calendar:Cal", "curve:calendar:UnionCal", "curve:calendar:NamedCal", "curve:index_base:some", "curve:index_base:none", "spline:solved", "spline:unsolved", "fx:saved-after-quote-updates", "fx:saved-as-built", "fx:saved-after-update-attempts-that-must-be-refused", "float:subnormal", "float:random-bits", "name:non-ascii", "name:quote", "name:empty"] {
+        for c in ["curve:calendar:Cal", "curve:calendar:UnionCal", "curve:calendar:NamedCal", "curve:index_base:some", "curve:index_base:none", "spline:solved", "spline:unsolved", "fx:saved-after-quote-updates", "fx:saved-as-built", "fx:saved-after-update-attempts-that-must-be-refused", "float:subnormal", "float:random-bits", "name:non-ascii", "name:quote", "name:empty", "namedcal:python-constructor:plain-spelling", "namedcal:python-constructor:padded-spelling"] {
             v.push(c.to_string());
         }
         v
@@ -271,7 +285,7 @@ impl Prop for C16 {
         16
     }
     fn rule(&self) -> String {
-        "Seeded objects of every serialisable kind - Dual, Dual2, Number, Cal, UnionCal, NamedCal, CalType, Python-facing Curve (5 rules + null x orders 0/1/2 x 3 calendar kinds x index_base some/none, float / Dual / Dual2 nodes), FXRates (orders 0/1/2, float / Dual / Dual2 quotes; half of them saved after 1-3 quote updates / derivative-order switches), PPSpline of the 3 types (solved and unsolved) - with hostile contents: random finite bit patterns, 17-significant-digit values, sub-normals, +-0, extreme exponents, neighbours of powers of ten; variable names with quotes, back-slashes, control and non-ASCII characters and the empty name; holiday timestamps with non-midnight and nanosecond parts. Each goes through serde_json (the JSON trait), the tagged from_json container (verif hook) and bincode (the pickle state) and is compared with the original by the type's own == AND field by field / bit for bit, plus query answers (calendar predicates on sampled dates, curve values and index values, all n^2 FX rates, spline knots and coefficients). distinct_nontrivial = one per generated object.".into()
+        "Seeded objects of every serialisable kind - Dual, Dual2, Number, Cal, UnionCal, NamedCal, CalType, Python-facing Curve (5 rules + null x orders 0/1/2 x 3 calendar kinds x index_base some/none, float / Dual / Dual2 nodes), FXRates (orders 0/1/2, float / Dual / Dual2 quotes; half of them saved after 1-3 quote updates / derivative-order switches), PPSpline of the 3 types (solved and unsolved) - with hostile contents: random finite bit patterns, 17-significant-digit values, sub-normals, +-0, extreme exponents, neighbours of powers of ten; variable names with quotes, back-slashes, control and non-ASCII characters and the empty name; holiday timestamps with non-midnight and nanosecond parts. Half of the named calendars are made by the Python-facing constructor from a free spelling of a valid name (mixed case; white space around members and separators - whatever the constructor accepts must come back). Each goes through serde_json (the JSON trait), the tagged from_json container and the Python-exposed from_json function (verif hooks), bincode (the pickle state) and the pickle protocol itself as Python runs it (cls(*__getnewargs__()) then __setstate__(__getstate__()), verif hooks; also for every Convention and Modifier value, currencies and single quotes) and is compared with the original by the type's own == AND field by field / bit for bit, plus query answers (calendar predicates on sampled dates, curve values and index values, all n^2 FX rates, spline knots and coefficients). distinct_nontrivial = one per generated object.".into()
     }
     fn assumptions(&self) -> Vec<String> {
         vec![
@@ -281,7 +295,7 @@ impl Prop for C16 {
         ]
     }
     fn run_case(&mut self, ctx: &mut Ctx, _phase: usize, idx: u64, rng: &mut Rng) {
-        let kind = KINDS[(idx % 13) as usize];
+        let kind = KINDS[(idx % 14) as usize];
         ctx.class(&format!("kind:{}", kind));
         ctx.crumb(&format!("round trip {}", kind));
         let res = guarded(|| run_kind(ctx_proxy(), kind, rng));
@@ -361,6 +375,7 @@ fn run_kind(_: (), kind: &str, r: &mut Rng) -> Outcome {
                 if !(b == o) || !dual_identical(&b, &o) {
                     return fail("bincode", "not-equal", json!({"object": d, "loaded": b.describe()}));
                 }
+                pickled(o.verif_py_pickle(), |p| *p == o && dual_identical(p, &o), &d)?;
                 match tagged(VerifObj::wrap_dual(o.clone())) {
                     Ok((t, js)) => match t.as_dual() {
                         Some(x) if *x == o && dual_identical(x, &o) => Ok(()),
@@ -388,6 +403,7 @@ fn run_kind(_: (), kind: &str, r: &mut Rng) -> Outcome {
                 if !(b == o) || !dual2_identical(&b, &o) {
                     return fail("bincode", "not-equal", json!({"object": d, "loaded": b.describe()}));
                 }
+                pickled(o.verif_py_pickle(), |p| *p == o && dual2_identical(p, &o), &d)?;
                 match tagged(VerifObj::wrap_dual2(o.clone())) {
                     Ok((t, js)) => match t.as_dual2() {
                         Some(x) if *x == o && dual2_identical(x, &o) => Ok(()),
@@ -435,6 +451,7 @@ fn run_kind(_: (), kind: &str, r: &mut Rng) -> Outcome {
                 if !(b == o) || !cal_identical(&b, &o) {
                     return fail("bincode", "not-equal", json!({"object": d}));
                 }
+                pickled(o.verif_py_pickle(), |p| *p == o && cal_identical(p, &o), &d)?;
                 match tagged(VerifObj::wrap_cal(o.clone())) {
                     Ok((t, _)) => match t.as_cal() {
                         Some(x) if *x == o && cal_identical(x, &o) => Ok(()),
@@ -461,6 +478,7 @@ fn run_kind(_: (), kind: &str, r: &mut Rng) -> Outcome {
                 if !union_identical(&b, &o) || !behaves_same(&b, &o, r) {
                     return fail("bincode", "not-equal", json!({"object": d}));
                 }
+                pickled(o.verif_py_pickle(), |p| *p == o && union_identical(p, &o), &d)?;
                 match tagged(VerifObj::wrap_union_cal(o.clone())) {
                     Ok((t, _)) => match t.as_union_cal() {
                         Some(x) if union_identical(x, &o) => Ok(()),
@@ -473,9 +491,16 @@ fn run_kind(_: (), kind: &str, r: &mut Rng) -> Outcome {
             (6, cls, out, d)
         }
         "NamedCal" => {
-            let o = gen_named(r);
+            // half of them from the Python-facing constructor with a free spelling of the name
+            let (o, spelling) = if r.bool() {
+                let (o, sp, labels) = gen_named_spelled(r);
+                cls.extend(labels);
+                (o, Some(sp))
+            } else {
+                (gen_named(r), None)
+            };
             let name = rateslib::verif::named_cal_name(&o);
-            let d = json!({"name": name});
+            let d = json!({"name": name, "spelling_given_to_the_python_constructor": spelling});
             let out = (|| {
                 let (j, b, js) = match paths(&o) {
                     Ok(x) => x,
@@ -492,6 +517,10 @@ fn run_kind(_: (), kind: &str, r: &mut Rng) -> Outcome {
                 if rateslib::verif::named_cal_name(&b) != name || !behaves_same(&b, &o, r) {
                     return fail("bincode", "not-equal", json!({"object": d}));
                 }
+                {
+                    let mut rr = r.clone();
+                    pickled(o.verif_py_pickle(), |p| rateslib::verif::named_cal_name(p) == name && behaves_same(p, &o, &mut rr) && *p == o, &d)?;
+                }
                 match tagged(VerifObj::wrap_named_cal(o.clone())) {
                     Ok((t, _)) => match t.as_named_cal() {
                         Some(x) if rateslib::verif::named_cal_name(x) == name && behaves_same(x, &o, r) => Ok(()),
@@ -502,6 +531,72 @@ fn run_kind(_: (), kind: &str, r: &mut Rng) -> Outcome {
                 }
             })();
             (7, cls, out, d)
+        }
+        "PickledValues" => {
+            // the small value classes that only travel by pickle: every Convention and Modifier, a currency, a quote
+            use rateslib::calendars::{Convention, Modifier};
+            use rateslib::fx::rates::FXRate;
+            let convs = [
+                Convention::One, Convention::OnePlus, Convention::Act365F, Convention::Act365FPlus, Convention::Act360, Convention::ThirtyE360,
+                Convention::Thirty360, Convention::Thirty360ISDA, Convention::ActActISDA, Convention::ActActICMA, Convention::Bus252,
+            ];
+            let mods = [Modifier::Act, Modifier::F, Modifier::ModF, Modifier::P, Modifier::ModP];
+            let code = |r: &mut Rng| -> String { (0..3).map(|_| (b'a' + r.below(26) as u8) as char).collect() };
+            let (l, mut rh) = (code(r), code(r));
+            if rh == l {
+                rh = if l == "zzz" { "aaa".to_string() } else { "zzz".to_string() };
+            }
+            let rate = match r.below(3) {
+                0 => Number::F64(hostile_f64(r)),
+                1 => Number::Dual(gen_dual(r)),
+                _ => Number::Dual2(gen_dual2(r)),
+            };
+            let settle = if r.bool() { Some(to_ndt(Z_1970 + r.below(84371) as i64)) } else { None };
+            let d = json!({"pair": format!("{}{}", l, rh), "rate": format!("{:?}", rate), "settlement": settle.map(|s| s.to_string())});
+            let out = (|| {
+                for c in convs.iter() {
+                    match c.verif_py_pickle() {
+                        Ok(p) if p == *c => {}
+                        Ok(p) => return fail("pickle", "convention-changed", json!({"original": format!("{:?}", c), "loaded": format!("{:?}", p)})),
+                        Err(e) => return fail("pickle", "error", json!({"original": format!("{:?}", c), "error": e})),
+                    }
+                }
+                for m in mods.iter() {
+                    match m.verif_py_pickle() {
+                        Ok(p) if p == *m => {}
+                        Ok(p) => return fail("pickle", "modifier-changed", json!({"original": format!("{:?}", m), "loaded": format!("{:?}", p)})),
+                        Err(e) => return fail("pickle", "error", json!({"original": format!("{:?}", m), "error": e})),
+                    }
+                }
+                let c = Ccy::try_new(&l).ok().expect("Ccy::try_new");
+                match c.verif_py_pickle() {
+                    Ok(p) if p == c && rateslib::verif::ccy_name(&p) == l => {}
+                    Ok(p) => return fail("pickle", "currency-changed", json!({"original": l, "loaded": rateslib::verif::ccy_name(&p)})),
+                    Err(e) => return fail("pickle", "error", json!({"original": l, "error": e})),
+                }
+                let q = FXRate::try_new(&l, &rh, rate.clone(), settle).ok().expect("FXRate::try_new");
+                let same_quote = |p: &FXRate| -> bool {
+                    let (a, b) = (serde_json::to_value(p).unwrap_or(Value::Null), serde_json::to_value(&q).unwrap_or(Value::Null));
+                    *p == q && a == b
+                };
+                match q.verif_py_pickle() {
+                    Ok(p) if same_quote(&p) => {}
+                    Ok(p) => return fail("pickle", "quote-changed", json!({"original": d, "loaded": format!("{:?}", p)})),
+                    Err(e) => return fail("pickle", "error", json!({"original": d, "error": e})),
+                }
+                let (j, b, js) = match paths(&q) {
+                    Ok(x) => x,
+                    Err(e) => return fail("serde", "error", json!({"object": d, "error": e})),
+                };
+                if !same_quote(&j) {
+                    return fail("json", "quote-changed", json!({"object": d, "json": js}));
+                }
+                if !same_quote(&b) {
+                    return fail("bincode", "quote-changed", json!({"object": d}));
+                }
+                Ok(())
+            })();
+            (21, cls, out, d)
         }
         "CalType" => {
             let o = gen_caltype(r);
@@ -631,6 +726,20 @@ fn run_kind(_: (), kind: &str, r: &mut Rng) -> Outcome {
                         return fail(path, "rate-values-differ", json!({"object": d}));
                     }
                 }
+                match o.verif_py_pickle() {
+                    Ok(p) => {
+                        if rateslib::verif::fxrates_ad(&p) != ADOrder::One {
+                            return fail("pickle", "loaded-order-not-first", json!({"object": d}));
+                        }
+                        if let Err(e) = fx_same_mode(&p, &at_one, !via_two) {
+                            return fail("pickle", "not-equal", json!({"object": d, "what": e}));
+                        }
+                        if !fx_values_same(&p, &o) {
+                            return fail("pickle", "rate-values-differ", json!({"object": d}));
+                        }
+                    }
+                    Err(e) => return fail("pickle", "error", json!({"object": d, "error": e})),
+                }
                 match tagged(VerifObj::wrap_fxrates(o.clone())) {
                     Ok((t, _)) => match t.as_fxrates() {
                         Some(x) => match fx_same_mode(x, &at_one, !via_two) {
@@ -682,12 +791,27 @@ fn run_kind(_: (), kind: &str, r: &mut Rng) -> Outcome {
                 if !b.eq(o) {
                     return fail("bincode", "not-equal-by-==", json!({"object": d}));
                 }
+                // Python's pickle protocol on the class
+                match o.py_pickle() {
+                    Ok(p) => {
+                        if let Err(w) = curve_same(&p, o, &qs, &co.rule, r) {
+                            return fail("pickle", "not-equal", json!({"object": d, "what": w}));
+                        }
+                        if !p.eq(o) {
+                            return fail("pickle", "not-equal-by-==", json!({"object": d}));
+                        }
+                    }
+                    Err(e) => return fail("pickle", "error", json!({"object": d, "error": e})),
+                }
                 // the tagged text the Python object emits
                 let tj = match o.to_json() {
                     Ok(t) => t,
                     Err(()) => return fail("tagged", "error", json!({"object": d})),
                 };
-                match VerifObj::from_json(&tj) {
+                if let Err(e) = VerifObj::from_json(&tj) {
+                    return fail("tagged", "error", json!({"object": d, "error": e}));
+                }
+                match VerifObj::py_from_json(&tj) {
                     Ok(t) => match t.as_curve() {
                         Some(x) => match curve_same(&x, o, &qs, &co.rule, r) {
                             Ok(()) if x.eq(o) => Ok(()),
